@@ -87,7 +87,7 @@ def cbmc(rn, ob, mc):
     if usd: cmd += ['--unwindset', ','.join('%s:%d' % kv for kv in usd.items())]
     if ob.solver == 'kissat': cmd += ['--external-sat-solver', 'kissat']
     elif ob.solver == 'cadical': cmd += ['--sat-solver', 'cadical']
-    rc, so, se, w, rss = run(cmd, timeout=ob.timeout, mem_gb=max(ob.mem_gb * 3, 24))
+    rc, so, se, w, rss = run(cmd, timeout=ob.timeout * float(os.environ.get('VERIF_TIMEOUT_SCALE', '1')), mem_gb=max(ob.mem_gb * 3, 24))
     open(os.path.join(d, 'cbmc.out'), 'w').write('CMD: ' + ' '.join(cmd) + '\n' + so + '\n--- stderr ---\n' + se)
     res = dict(cmd=' '.join(cmd), wall_s=round(w, 1), rc=rc)
     if rc is None: res['status'] = 'timeout'; return res
